@@ -9,11 +9,13 @@ behaviour is executed.  An atom outside the supported vocabulary raises
 Unsupported -> ANALYSIS-ERROR, never a guess.
 """
 import ast
+import copy
 import re
 
 from . import strlang as SL
 from .strlang import DFA, rx, anyof, star, contains_any_char, contains_substr, union, concat, EVERYTHING, EMPTY
 from .core import AnalysisError
+from .inline import clone
 
 
 class Unsupported(AnalysisError):
@@ -492,7 +494,118 @@ class Eval:
                 return {"N": reach}
             raise
 
+    # ---- thin helpers: a method whose body is a single `return <expr>` is read as that expression
+    def thin_body(self, call):
+        """(defcls, params, expr) when `call` is self.<m>(...) / <Class>.<m>(...) and <m> is a thin helper that the
+        string-argument protocol of callfn() cannot take (more than one argument, or an argument that is
+        not the string under test); None otherwise."""
+        f = call.func
+        if not (isinstance(f, ast.Attribute) and isinstance(f.value, ast.Name)):
+            return None
+        if f.value.id == "self":
+            cls = "Token" if isinstance(self.env.get("self"), Str) else self.cls
+        elif f.value.id in self.ctx.repo.classes:
+            cls = f.value.id
+        else:
+            return None
+        if any(isinstance(a, ast.Starred) for a in call.args) or any(k.arg is None for k in call.keywords):
+            return None
+        if len(call.args) == 1 and not call.keywords and self.argkind(call.args[0]) is not None:
+            return None
+        if not call.args and not call.keywords:
+            return None
+        defcls, fn = resolve(self.ctx, cls, f.attr)
+        if fn is None:
+            return None
+        body = [b for b in fn.body if not (isinstance(b, ast.Expr) and isinstance(b.value, ast.Constant))]
+        if len(body) != 1 or not isinstance(body[0], ast.Return) or body[0].value is None:
+            return None
+        decos = self.ctx.repo.classes[defcls].decorators.get(f.attr, [])
+        a = fn.args
+        if a.vararg or a.kwarg or a.kwonlyargs:
+            return None
+        params = [x.arg for x in a.posonlyargs + a.args]
+        if "staticmethod" not in decos:
+            if "classmethod" in decos or not params:
+                return None
+            params = params[1:]
+        if len(call.args) > len(params):
+            return None
+        binding = dict(zip(params, call.args))
+        for k in call.keywords:
+            if k.arg not in params or k.arg in binding:
+                return None
+            binding[k.arg] = k.value
+        defaults = dict(zip(params[len(params) - len(a.defaults):], a.defaults))
+        for p_ in params:
+            if p_ not in binding:
+                if p_ not in defaults:
+                    return None
+                binding[p_] = defaults[p_]
+        return body[0].value, binding
+
+    def expand(self, e, depth=0):
+        """`e` with calls to thin helpers replaced by the helper's return expression (arguments substituted)."""
+        if e is None or depth > 4:
+            return e
+        ev = self
+
+        class Sub(ast.NodeTransformer):
+            def __init__(self, binding):
+                self.binding = binding
+
+            def visit_Name(self, n):
+                if isinstance(n.ctx, ast.Load) and n.id in self.binding:
+                    return clone(self.binding[n.id])
+                return n
+
+        class Inl(ast.NodeTransformer):
+            changed = False
+
+            def visit_Call(self, n):
+                self.generic_visit(n)
+                tb = ev.thin_body(n)
+                if tb is None:
+                    return n
+                expr, binding = tb
+                Inl.changed = True
+                return Sub(binding).visit(clone(expr))
+
+        if not any(isinstance(n, ast.Call) and isinstance(n.func, ast.Attribute) for n in ast.walk(e)):
+            return e
+        Inl.changed = False
+        new = Inl().visit(clone(e))
+        if not Inl.changed:
+            return e
+        ast.fix_missing_locations(new)
+        return self.expand(new, depth + 1)
+
+    def expand_stmt(self, s):
+        cache = self.ctx.__dict__.setdefault("_expand_cache", {})
+        key = (id(s), self.cls, isinstance(self.env.get("self"), Str))
+        if key not in cache:
+            cache[key] = (s, self.expand_stmt0(s))      # the statement is kept alive so that its id stays unique
+        return cache[key][1]
+
+    def expand_stmt0(self, s):
+        fields = {ast.Expr: ("value",), ast.Assign: ("value",), ast.Return: ("value",), ast.If: ("test",),
+                  ast.For: ("iter",), ast.AugAssign: ("value",), ast.While: ("test",)}.get(type(s))
+        if not fields:
+            return s
+        new = None
+        for fl in fields:
+            old = getattr(s, fl)
+            if old is None:
+                continue
+            x = self.expand(old)
+            if x is not old:
+                if new is None:
+                    new = copy.copy(s)
+                setattr(new, fl, x)
+        return new if new is not None else s
+
     def stmt0(self, s, reach):
+        s = self.expand_stmt(s)
         if isinstance(s, ast.Expr):
             if isinstance(s.value, ast.Constant):
                 return {"N": reach}
@@ -537,7 +650,7 @@ class Eval:
                         self.env[t.id] = Match(rx(pat), pat)
                     else:
                         r = self.conc(v.func.value)
-                        self.env[t.id] = Match(rx(r.pattern) if r is not None else EMPTY)
+                        self.env[t.id] = Match(rx(r.pattern) if r is not None else EMPTY, r.pattern if r is not None else None)
                     return {"N": reach}
                 if isinstance(v, ast.Call) and isinstance(v.func, ast.Attribute) and v.func.attr == "groupdict" \
                         and isinstance(self.env.get(ast.unparse(v.func.value)), Match):
